@@ -56,9 +56,12 @@ Section Model.
     | S f =>
       if gtb N (sub N bmax bmin) tl then
         let try := mul N (half N) (add N bmax bmin) in
-        if geb N (effq p try) target
-        then bisect f p target try bmax tl (trace ++ [try])
-        else bisect f p target bmin try tl (trace ++ [try])
+        (* `if not (beta_min < beta_try < beta_max): break` — adjacent floats: the bracket cannot be resolved further (repair F58) *)
+        if ltb N bmin try && ltb N try bmax then
+          if geb N (effq p try) target
+          then bisect f p target try bmax tl (trace ++ [try])
+          else bisect f p target bmin try tl (trace ++ [try])
+        else Some (bmin, bmax, trace)
       else Some (bmin, bmax, trace)
     end.
 
